@@ -225,6 +225,11 @@ def main(argv=None):
     except HarnessError as e:
         print("HARNESS-ERROR property=%s %s" % (prop, e))
         return EXIT_HARNESS
+    except Exception:
+        # e.g. the tree under test does not import: a broken harness run is never a pass and never a VIOLATION
+        import traceback
+        print("HARNESS-ERROR property=%s unexpected exception in the driver:\n%s" % (prop, traceback.format_exc()))
+        return EXIT_HARNESS
     finally:
         core.cleanup_scratch()
 
